@@ -358,6 +358,14 @@ impl C07Conc {
                 return out;
             }
             let answered = seen.iter().any(|s| s.answered);
+            if seen.is_empty() && !q.drop_all && m.full_rcode() != 0 {
+                // the name is unique to this query, the upstream is up and was never asked
+                out.fail(
+                    "C07:never-forwarded",
+                    format!("{}: rcode {} although the upstream was never asked; EDE {:?}; server panics: {:?}", desc, m.full_rcode(), ede_texts(&m), server.panics()),
+                );
+                return out;
+            }
             if q.drop_all || !answered {
                 out.class("upstream-silent");
                 if m.full_rcode() != 2 {
@@ -367,7 +375,12 @@ impl C07Conc {
             } else {
                 let want = answer_for(&r.question);
                 let ok = m.full_rcode() == 0 && m.answer.len() == 1 && m.answer[0].rdata == want.rdata;
-                if !ok {
+                // an upstream that takes 5 s or more may be given up on: SERVFAIL or the answer
+                let gave_up = q.delay_ms >= 5000 && m.full_rcode() == 2 && m.answer.is_empty();
+                if gave_up {
+                    out.class("gave-up-on-an-upstream-slower-than-5s");
+                }
+                if !ok && !gave_up {
                     out.fail(
                         "C07:not-its-own-answer",
                         format!(
@@ -377,7 +390,7 @@ impl C07Conc {
                             m.answer,
                             want.rdata,
                             seen.len(),
-                            m.edns().and_then(|e| e.ok()).map(|e| e.options.iter().filter(|o| o.0 == 15).map(|o| String::from_utf8_lossy(&o.1[2.min(o.1.len())..]).to_string()).collect::<Vec<_>>()),
+                            ede_texts(&m),
                             server.panics()
                         ),
                     );
@@ -395,6 +408,12 @@ impl C07Conc {
         }
         out
     }
+}
+
+fn ede_texts(m: &dns::Message) -> Option<Vec<String>> {
+    m.edns()
+        .and_then(|e| e.ok())
+        .map(|e| e.options.iter().filter(|o| o.0 == 15).map(|o| String::from_utf8_lossy(&o.1[2.min(o.1.len())..]).to_string()).collect::<Vec<_>>())
 }
 
 impl WireProp for C07Conc {
@@ -573,6 +592,34 @@ pub fn run_c07(ctx: &Ctx) {
                     ctx.violation(prop.sub(), &f, &case);
                     return;
                 }
+            }
+        }
+    }
+    // a reply that comes later than anybody waits for it: one TCP-path query whose upstream reply
+    // takes 11.5 s (SERVFAIL or the answer, either is fine), then, once that reply has arrived on
+    // the shared upstream connection, more queries that travel the same connection: each must
+    // get its own answer
+    {
+        let mut queries = vec![
+            QSpec { delay_ms: 11500, ..plain(true, 0, 0) },
+            QSpec { send_after_s: 13, ..plain(true, 0, 0) },
+            QSpec { send_after_s: 13, tc: true, ..plain(false, 0, 1) },
+            QSpec { send_after_s: 13, wrong_id: true, ..plain(false, 0, 2) },
+            QSpec { send_after_s: 13, ..plain(false, 0, 3) },
+        ];
+        for i in 0..8u8 {
+            queries.push(QSpec { send_after_s: 14, send_after_ms: 40 * i as u16, ..plain(true, i % 3, i) });
+        }
+        let case = ConcCase { listener: 1, queries, upstream_idle_close_ms: 0 };
+        let mut out = exec_one(&prop, &case);
+        out.class("tcp-path-queries-after-a-reply-11.5-s-late");
+        ctx.record(prop.sub(), &case, &out);
+        if let Some(f) = out.fail {
+            if ctx.is_known(&f.sig) {
+                ctx.known_hit(&f.sig);
+            } else {
+                ctx.violation(prop.sub(), &f, &case);
+                return;
             }
         }
     }
